@@ -68,7 +68,11 @@ class Parser(ICommParse):
     def _stream_data_get(
         self, decode: DsfmtItem, unpacked: tuple[Any, ...]
     ) -> tuple[Any, ...]:
-        if decode.dtype == EParseDataType.NUM and decode.scale:
+        if (
+            decode.dtype == EParseDataType.NUM
+            and decode.scale
+            and decode.scale != 1
+        ):
             # scale numerical data if scaling factor available
             retdata = tuple(x / decode.scale for x in unpacked)
 
